@@ -164,7 +164,7 @@ class _Norm(Normalizer):
         if tr is not None and is_unsigned(ct) and not result.is_const():
             lo, hi = result.range(lambda a: self.flow.bounds(self.s, a))
             if lo < tr[0] or hi > tr[1]:
-                self.modular.append((n, self.tu.show(n)))
+                self.modular.append((n, result.show()))
         return result
 
 
@@ -229,10 +229,24 @@ class Flow:
         return v
 
     def wrap_sites(self, n, s, fr):
-        """unsigned arithmetic nodes inside n whose mathematical value may leave the type's range in state s"""
-        nm = _Norm(self, s, fr)
-        nm.poly(n)
-        return nm.modular
+        """unsigned arithmetic nodes inside n - and inside the remembered initialisers of the locals n mentions - whose
+        mathematical value may leave the type's range in state s"""
+        tu = fr.tu
+        todo, seen, sites = [n], set(), []
+        while todo and len(seen) < 40:
+            x = todo.pop()
+            if x is None or x['id'] in seen:
+                continue
+            seen.add(x['id'])
+            nm = _Norm(self, s, fr)
+            nm.poly(x)
+            sites += nm.modular
+            for y in tu.walk(x):
+                if y.get('kind') == 'DeclRefExpr':
+                    iid = s.get(('init', fr.key, y.get('referencedDecl', {}).get('id')))
+                    if iid is not None:
+                        todo.append(tu.node(iid))
+        return sites
 
     def cast_val(self, n, v, s, fr):
         ct = fr.tu.sd(n).get('ct')
@@ -430,7 +444,7 @@ class Flow:
 
     def _leave(self, s, fr):
         key = fr.key
-        return s.drop(lambda k: k == '$ret' or (isinstance(k, tuple) and k[0] in ('env', 'ret') and k[1] == key))
+        return s.drop(lambda k: k == '$ret' or (isinstance(k, tuple) and k[0] in ('env', 'ret', 'init') and k[1] == key))
 
     def analyse(self, ti, fn, this=None, facts=None, env=None):
         """run entry function `fn` of translation unit index ti; -> list of Path (returning and terminated)"""
@@ -565,12 +579,25 @@ class Flow:
                     ks = tu.kids(v)
                     if v.get('init') and ks:
                         s = s.set(('env', fr.key, v['id']), self.val(ks[-1], s, fr))
+                        # remember the initialiser: unsigned arithmetic in it is checked for wrapping where the variable is
+                        # *used* (under the facts of that path), not where it is computed
+                        s = s.set(('init', fr.key, v['id']), ks[-1]['id'])
                     else:
                         s = s.set(('env', fr.key, v['id']), Poly.atom(('uninit', fr.key, v['id'], v.get('name'))))
                 return [s]
             if k == 'BinaryOperator' and n.get('opcode') == '=':
                 ks = tu.kids(n)
-                return [self.assign(ks[0], self.val(ks[1], s, fr), s, fr, blk, n)]
+                v = self.val(ks[1], s, fr)
+                lt = tu.strip(ks[0], casts=True)
+                did = lt.get('referencedDecl', {}).get('id') if lt is not None and lt.get('kind') == 'DeclRefExpr' else None
+                selfref = did is not None and any(y.get('kind') == 'DeclRefExpr' and y.get('referencedDecl', {}).get('id') == did
+                                                  for y in tu.walk(ks[1]))
+                if selfref:
+                    s = self.note_wraps(ks[1], s, fr)      # x = f(x): cannot be re-examined later, check under the facts known here
+                s2 = self.assign(ks[0], v, s, fr, blk, n)
+                if did is not None and not selfref and ('env', fr.key, did) in s2.d and blk.id not in fr.cyclic:
+                    s2 = s2.set(('init', fr.key, did), ks[1]['id'])
+                return [s2]
             if k == 'CompoundAssignOperator':
                 ks = tu.kids(n)
                 a, b = self.val(ks[0], s, fr), self.val(ks[1], s, fr)
@@ -626,6 +653,7 @@ class Flow:
                 self.set_default(a, tu.sd(lhs).get('ct'))
                 v = Poly.atom(a)
         if loc[0] == 'envvar':
+            s = s.drop(lambda k: isinstance(k, tuple) and k[0] == 'init' and k[1] == loc[1])
             lt = tu.strip(lhs, casts=True)
             ty = (lt.get('type', {}).get('qualType', '') if lt else '')
             rd = lt.get('referencedDecl', {}) if lt else {}
